@@ -204,21 +204,25 @@ def _geotherm(ctx, e2e):
             tc, pc = numpy.linspace(t_lo, t_hi, nt0), numpy.linspace(p_lo, p_hi, np0)
             on_node = rg.random(npts) < 0.5
             gt = numpy.where(on_node, tc[jt], rg.uniform(t_lo, t_hi, npts))
-            if (i // 2) % 2 == 1:
+            int_cls = ["none", "T", "T+P", "P"][(i // 2) % 4]     # which columns hold whole numbers only (written as people type them: 25 2000)
+            if "T" in int_cls:
                 gt = numpy.round(gt)               # every temperature of this geotherm is a whole number of kelvin
                 on_node = on_node & (gt == tc[jt])   # a node temperature that is not integral is no longer on the node
             gp = numpy.where(on_node, pc[jp], rg.uniform(p_lo, p_hi, npts))
+            if "P" in int_cls:
+                gp = numpy.round(gp)
+                on_node = on_node & (gp == pc[jp])
             depth = numpy.round(rg.uniform(0, 2900, npts), 1)
             gpath = os.path.join(wd, "geotherm.txt")
             cols = [("P", gp), ("D", depth), ("T", gt)] if i % 2 else [("T", gt), ("P", gp)]
             with open(gpath, "w") as fp:
                 fp.write(" ".join(c for c, _ in cols) + "\n")
-                as_int = (i // 2) % 2 == 1          # integral values written as integer literals (as people type them: 1500, not 1500.0)
+                as_int = int_cls != "none"          # integral values written as integer literals (1500, not 1500.0)
                 for r in range(npts):
                     fp.write(" ".join((str(int(v[r])) if as_int and float(v[r]).is_integer() else repr(float(v[r]))) for _, v in cols) + "\n")
             args = ["-g", "geotherm.txt", "-v", ",".join(names)]
             out = invoke(ctx, cij.cli.geotherm.main, args, wd, case_id, "extract-geotherm")
-            ctx.evaluation(f"geotherm|refinement-x{mult}", (i, mult), sample={"variables": names, "grid": [len(t), len(p)], "path_points": npts,
+            ctx.evaluation(f"geotherm|refinement-x{mult}|integer-literals:{int_cls}", (i, mult), sample={"variables": names, "grid": [len(t), len(p)], "path_points": npts,
                                                                                  "path_head": {"T": gt[:3], "P": gp[:3]}})
             if out is None:
                 ok = False
